@@ -122,6 +122,7 @@ func specs() map[string]propSpec {
 	o = full
 	o.SpacingsPos = true
 	o.P4 = []string{"sink", "valign", "packright", "bk", "bk1"}
+	o.P5 = []string{"polyline", "straight", "ortho", "noop", "polyline", "ortho"} // the flag of a reversed edge is set whatever the router (seeded C03-6)
 	m["C03"] = propSpec{opts: o, gen: baseGen(o), oracle: layoutThen(oracleC03), rule: "random multigraphs x both breakers x both layerers x positioners, LayerSpacing > 0, heterogeneous heights"}
 
 	o = full
@@ -296,6 +297,15 @@ func specs() map[string]propSpec {
 	return m
 }
 
+// budget > 0: stop generating after this many seconds (VH_BUDGET)
+var budget = func() float64 {
+	b := 0.0
+	if v := os.Getenv("VH_BUDGET"); v != "" {
+		fmt.Sscan(v, &b)
+	}
+	return b
+}()
+
 func runProbe(prop string, seed uint64, n int, outPath string, maxViol int) int {
 	sp, ok := specs()[prop]
 	if !ok {
@@ -334,6 +344,9 @@ func runProbe(prop string, seed uint64, n int, outPath string, maxViol int) int 
 		res.Dist[fmt.Sprintf("edges:%02d", (len(c.Edges)/4)*4)]++
 		if len(res.Samples) < 3 {
 			res.Samples = append(res.Samples, c)
+		}
+		if budget > 0 && time.Since(start).Seconds() > budget {
+			break
 		}
 		msgs, hung := guarded(func() []string { return sp.oracle(c, rngFor(c)) })
 		if hung && confirmHang(c) {
